@@ -20,6 +20,7 @@ LEVEL_TEXT = ("Bounded relational contracts, one per rewrite R in {copy, pickle 
               "add_mapspec_axis (one ':' per existing dimension of the parameter but one, then the new axis).")
 LEVEL_NOTE = ("Bounds: DAGs of 1..4 functions (tuple outputs, defaults, bound values, renames); compositions of <=2 "
               "rewrites; mutations update_defaults / update_bound. Trusted: reference evaluator rtc/dag.py.")
+LEVEL_NOTE += (' Rewritten pipelines are compared under pipeline(...) and under map (every function called once on whole values); in-place renamings that permute root-argument names are applied to cached pipelines after every output was computed once.')
 TECHNIQUE = ("bounded relational contract checking of each rewrite against the reference evaluator; leaf "
              "_axes_from_dims discharged by z3")
 EXPLANATION = LEVEL_TEXT
